@@ -252,6 +252,19 @@ def pool (s : St) (log : List Out) : List Nat := ids s.unacked ++ reportedIds lo
 /-- 1 if `p` is an id allocated between `s` and `s'` -/
 def fresh (s s' : St) (p : Nat) : Nat := if s.nextId ≤ p ∧ p < s'.nextId then 1 else 0
 
+theorem fresh_self (s s' : St) (p : Nat) (h : s'.nextId = s.nextId) : fresh s s' p = 0 := by
+  unfold fresh; split
+  · omega
+  · rfl
+
+theorem fresh_trans (a b c : St) (p : Nat) (h1 : a.nextId ≤ b.nextId) (h2 : b.nextId ≤ c.nextId) :
+    fresh a c p = fresh a b p + fresh b c p := by
+  unfold fresh; split <;> split <;> split <;> omega
+
+theorem fresh_congr (a a' b b' : St) (p : Nat) (h1 : a.nextId = a'.nextId) (h2 : b.nextId = b'.nextId) :
+    fresh a b p = fresh a' b' p := by
+  unfold fresh; rw [h1, h2]
+
 /-- counting form of one (possibly composite) transition: the ids it allocates occur exactly once
 more among "stored or reported", the ids in `pending` (entries already taken out of the map, to be
 reported by this transition) move into the report log, nothing else changes -/
@@ -263,14 +276,16 @@ structure Eff (s s' : St) (pending : List Nat) (out : List Out) : Prop where
 abbrev KeysInv (s : St) : Prop :=
   ∃ a, 1 ≤ a ∧ KeysFrom a s.unacked ∧ a + s.unacked.length = s.lastOut + 1
 
-theorem fresh_self (s s' : St) (p : Nat) (h : s'.nextId = s.nextId) : fresh s s' p = 0 := by
-  unfold fresh; split
-  · omega
-  · rfl
-
 theorem Eff.same {s s' : St} {out : List Out} (hn : s'.nextId = s.nextId)
     (hu : ids s'.unacked = ids s.unacked) (hr : reportedIds out = []) : Eff s s' [] out :=
   ⟨by omega, by intro p; simp [hu, hr, fresh_self s s' p hn]⟩
+
+theorem split_cnt (h : Nat) (l : List (Nat × Nat)) (p : Nat) :
+    (ids (ackedPart h l)).count p + (ids (keptPart h l)).count p = (ids l).count p := by
+  have h2 := congrArg (List.count p) (ids_acked_kept h l)
+  simpa [List.count_append] using h2
+
+/-! #### `send` -/
 
 theorem sendStep_nextId (s : St) (st up : Bool) : (sendStep s st up).1.nextId = s.nextId + 1 := by
   unfold sendStep; split <;> rfl
@@ -305,6 +320,8 @@ theorem sendStep_enabled (s : St) (st up : Bool) : (sendStep s st up).1.enabled 
   unfold sendStep; split <;> rfl
 theorem sendStep_lastIn (s : St) (st up : Bool) : (sendStep s st up).1.lastIn = s.lastIn := by
   unfold sendStep; split <;> rfl
+theorem sendStep_handled (s : St) (st up : Bool) : (sendStep s st up).1.handled = s.handled := by
+  unfold sendStep; split <;> rfl
 theorem sendStep_lastOut_le (s : St) (st up : Bool) : s.lastOut ≤ (sendStep s st up).1.lastOut := by
   unfold sendStep; split <;> simp
 
@@ -317,69 +334,96 @@ theorem sendStep_unacked (s : St) (st up : Bool) :
   · exact Or.inr ⟨rfl, rfl⟩
   · exact Or.inl rfl
 
-/-! #### firing reports with re-entrant continuations -/
+theorem sendStep_pkts (s : St) (st up : Bool) : ∀ p ∈ pktsOf (sendStep s st up).2, p = s.nextId := by
+  intro p hp
+  unfold sendStep at hp
+  split at hp
+  · simp only [pktsOf_append, pktsOf_emit_pkt, pktsOf_emit_r, pktsOf_written, List.append_nil] at hp
+    split at hp <;> simp at hp
+    exact hp
+  · simp only [pktsOf_append, pktsOf_emit_pkt, pktsOf_report, pktsOf_written, List.append_nil] at hp
+    split at hp <;> simp at hp
+    exact hp
 
-theorem fireAcked_mono (re : List Nat) (up : Bool) (l : List (Nat × Nat)) : ∀ s : St,
-    s.nextId ≤ (fireAcked re up s l).1.nextId ∧ s.lastOut ≤ (fireAcked re up s l).1.lastOut ∧
-    (fireAcked re up s l).1.enabled = s.enabled ∧ (fireAcked re up s l).1.lastIn = s.lastIn := by
+theorem sendStep_not_acked (s : St) (st up : Bool) (p : Nat) : Out.report p .acked ∉ (sendStep s st up).2 := by
+  unfold sendStep emit
+  split <;> cases up <;> simp
+
+/-- the only things `send` puts on the wire are a packet and `<r/>` -/
+theorem sendStep_wire (s : St) (st up : Bool) (w : Wire) (h : Out.wire w ∈ (sendStep s st up).2) :
+    (∃ i, w = .pkt i) ∨ w = .r := by
+  unfold sendStep emit at h
+  split at h <;> cases up <;> simp at h
+  · rcases h with h | h
+    · exact Or.inl ⟨_, h⟩
+    · exact Or.inr h
+  · exact Or.inl ⟨_, h⟩
+
+/-! #### firing reports whose continuations may send -/
+
+theorem fire_mono (rk : Report) (re : List Nat) (up : Bool) (l : List (Nat × Nat)) : ∀ s : St,
+    s.nextId ≤ (fire rk re up s l).1.nextId ∧ s.lastOut ≤ (fire rk re up s l).1.lastOut ∧
+    (fire rk re up s l).1.enabled = s.enabled ∧ (fire rk re up s l).1.lastIn = s.lastIn ∧
+    (fire rk re up s l).1.handled = s.handled := by
   induction l with
-  | nil => intro s; exact ⟨Nat.le_refl _, Nat.le_refl _, rfl, rfl⟩
+  | nil => intro s; exact ⟨Nat.le_refl _, Nat.le_refl _, rfl, rfl, rfl⟩
   | cons e t ih =>
     intro s
-    simp only [fireAcked]
+    simp only [fire]
     split
-    · obtain ⟨h1, h2, h3, h4⟩ := ih (sendStep s true up).1
+    · obtain ⟨h1, h2, h3, h4, h5⟩ := ih (sendStep s true up).1
       have := sendStep_nextId s true up
       have := sendStep_lastOut_le s true up
-      exact ⟨by omega, by omega, by rw [h3, sendStep_enabled], by rw [h4, sendStep_lastIn]⟩
+      exact ⟨by omega, by omega, by rw [h3, sendStep_enabled], by rw [h4, sendStep_lastIn],
+        by rw [h5, sendStep_handled]⟩
     · exact ih s
 
-theorem fireAcked_eff (re : List Nat) (up : Bool) (l : List (Nat × Nat)) : ∀ s : St,
-    Eff s (fireAcked re up s l).1 (ids l) (fireAcked re up s l).2 := by
+theorem fire_eff (rk : Report) (re : List Nat) (up : Bool) (l : List (Nat × Nat)) : ∀ s : St,
+    Eff s (fire rk re up s l).1 (ids l) (fire rk re up s l).2 := by
   induction l with
-  | nil => intro s; exact ⟨Nat.le_refl _, by intro p; simp [fireAcked, ids, fresh_self]⟩
+  | nil => intro s; exact ⟨Nat.le_refl _, by intro p; simp [fire, ids, fresh_self]⟩
   | cons e t ih =>
     intro s
-    refine ⟨(fireAcked_mono re up (e :: t) s).1, ?_⟩
+    refine ⟨(fire_mono rk re up (e :: t) s).1, ?_⟩
     intro p
-    simp only [fireAcked]
+    simp only [fire]
     split
     · have h1 := (sendStep_eff s true up).cnt p
       have h2 := (ih (sendStep s true up).1).cnt p
       have m1 := (sendStep_eff s true up).mono
       have m2 := (ih (sendStep s true up).1).mono
+      rw [fresh_trans s (sendStep s true up).1 _ p m1 m2]
       simp only [reportedIds_report, reportedIds_append, List.count_append, List.count_cons, ids,
         List.map_cons, List.count_nil, Nat.zero_add] at h1 h2 ⊢
-      unfold fresh at h1 h2 ⊢
-      split at h1 <;> split at h2 <;> split <;> split <;> omega
+      split <;> omega
     · have h2 := (ih s).cnt p
       simp only [reportedIds_report, List.nil_append, List.count_cons, ids, List.map_cons] at h2 ⊢
       split <;> omega
 
-theorem fireAcked_keys (re : List Nat) (up : Bool) (l : List (Nat × Nat)) : ∀ s : St,
-    KeysInv s → KeysInv (fireAcked re up s l).1 := by
+theorem fire_keys (rk : Report) (re : List Nat) (up : Bool) (l : List (Nat × Nat)) : ∀ s : St,
+    KeysInv s → KeysInv (fire rk re up s l).1 := by
   induction l with
   | nil => intro s h; exact h
   | cons e t ih =>
     intro s h
-    simp only [fireAcked]
+    simp only [fire]
     split
     · exact ih _ (sendStep_keys s true up h)
     · exact ih _ h
 
 /-- the continuations only append: entries with numbers beyond `lastOut` and fresh ids -/
-theorem fireAcked_unacked (re : List Nat) (up : Bool) (l : List (Nat × Nat)) : ∀ s : St,
-    ∃ extra, (fireAcked re up s l).1.unacked = s.unacked ++ extra ∧
-      ∀ e ∈ extra, s.lastOut < e.1 ∧ s.nextId ≤ e.2 ∧ e.2 < (fireAcked re up s l).1.nextId := by
+theorem fire_unacked (rk : Report) (re : List Nat) (up : Bool) (l : List (Nat × Nat)) : ∀ s : St,
+    ∃ extra, (fire rk re up s l).1.unacked = s.unacked ++ extra ∧
+      ∀ e ∈ extra, s.lastOut < e.1 ∧ s.nextId ≤ e.2 ∧ e.2 < (fire rk re up s l).1.nextId := by
   induction l with
-  | nil => intro s; exact ⟨[], by simp [fireAcked], by simp⟩
+  | nil => intro s; exact ⟨[], by simp [fire], by simp⟩
   | cons e t ih =>
     intro s
-    simp only [fireAcked]
+    simp only [fire]
     split
     · obtain ⟨extra, h1, h2⟩ := ih (sendStep s true up).1
       have hn := sendStep_nextId s true up
-      have hm := (fireAcked_mono re up t (sendStep s true up).1).1
+      have hm := (fire_mono rk re up t (sendStep s true up).1).1
       rcases sendStep_unacked s true up with hu | ⟨hu, hl⟩
       · refine ⟨extra, by rw [h1, hu], ?_⟩
         intro x hx
@@ -393,74 +437,67 @@ theorem fireAcked_unacked (re : List Nat) (up : Bool) (l : List (Nat × Nat)) : 
         · have := h2 x hx; omega
     · exact ih s
 
-theorem fireAcked_pkts (re : List Nat) (up : Bool) (l : List (Nat × Nat)) : ∀ s : St,
-    ∀ p ∈ pktsOf (fireAcked re up s l).2, s.nextId ≤ p ∧ p < (fireAcked re up s l).1.nextId := by
+theorem fire_pkts (rk : Report) (re : List Nat) (up : Bool) (l : List (Nat × Nat)) : ∀ s : St,
+    ∀ p ∈ pktsOf (fire rk re up s l).2, s.nextId ≤ p ∧ p < (fire rk re up s l).1.nextId := by
   induction l with
-  | nil => intro s p hp; simp [fireAcked] at hp
+  | nil => intro s p hp; simp [fire] at hp
   | cons e t ih =>
     intro s p hp
-    simp only [fireAcked] at hp ⊢
+    simp only [fire] at hp ⊢
     split at hp
     · rename_i hc
       simp only [hc, if_true]
       have hn := sendStep_nextId s true up
-      have hm := (fireAcked_mono re up t (sendStep s true up).1).1
+      have hm := (fire_mono rk re up t (sendStep s true up).1).1
       simp only [pktsOf_report, pktsOf_append, List.mem_append] at hp
       rcases hp with hp | hp
-      · have : p = s.nextId := by
-          unfold sendStep at hp
-          split at hp
-          · simp only [pktsOf_append, pktsOf_emit_pkt, pktsOf_emit_r, pktsOf_written, List.append_nil] at hp
-            split at hp <;> simp at hp
-            exact hp
-          · simp only [pktsOf_append, pktsOf_emit_pkt, pktsOf_report, pktsOf_written, List.append_nil] at hp
-            split at hp <;> simp at hp
-            exact hp
-        omega
+      · have := sendStep_pkts s true up p hp; omega
       · have := ih _ p hp; omega
     · rename_i hc
       simp only [hc]
       simp only [pktsOf_report, List.nil_append] at hp
       exact ih s p hp
 
-theorem sendStep_not_acked (s : St) (st up : Bool) (p : Nat) : Out.report p .acked ∉ (sendStep s st up).2 := by
-  unfold sendStep emit
-  split <;> cases up <;> simp
-
-theorem fireAcked_acked (re : List Nat) (up : Bool) (l : List (Nat × Nat)) : ∀ (s : St) (p : Nat),
-    Out.report p .acked ∈ (fireAcked re up s l).2 → ∃ e ∈ l, e.2 = p := by
+/-- a report in the output of `fire` that is not of a packet being fired comes from a `send`, so it is
+not "acknowledged" -/
+theorem fire_acked (rk : Report) (re : List Nat) (up : Bool) (l : List (Nat × Nat)) : ∀ (s : St) (p : Nat),
+    Out.report p .acked ∈ (fire rk re up s l).2 → rk = .acked ∧ ∃ e ∈ l, e.2 = p := by
   induction l with
-  | nil => intro s p hp; simp [fireAcked] at hp
+  | nil => intro s p hp; simp [fire] at hp
   | cons e t ih =>
     intro s p hp
-    simp only [fireAcked] at hp
+    simp only [fire] at hp
     rcases List.mem_cons.mp hp with h | h
-    · injection h with h1 _; exact ⟨e, by simp, h1.symm⟩
+    · injection h with h1 h2; exact ⟨h2.symm, e, by simp, h1.symm⟩
     · rcases List.mem_append.mp h with h | h
       · exfalso
         split at h
         · exact sendStep_not_acked _ _ _ _ h
         · simp at h
-      · obtain ⟨x, hx, hp⟩ := ih _ p h
-        exact ⟨x, by simp [hx], hp⟩
+      · obtain ⟨hr, x, hx, hp⟩ := ih _ p h
+        exact ⟨hr, x, by simp [hx], hp⟩
 
-/-- the only things a continuation puts on the wire are a packet and `<r/>` -/
-theorem sendStep_wire (s : St) (st up : Bool) (w : Wire) (h : Out.wire w ∈ (sendStep s st up).2) :
-    (∃ i, w = .pkt i) ∨ w = .r := by
-  unfold sendStep emit at h
-  split at h <;> cases up <;> simp at h
-  · rcases h with h | h
-    · exact Or.inl ⟨_, h⟩
-    · exact Or.inr h
-  · exact Or.inl ⟨_, h⟩
-
-theorem fireAcked_wire (re : List Nat) (up : Bool) (l : List (Nat × Nat)) : ∀ (s : St) (w : Wire),
-    Out.wire w ∈ (fireAcked re up s l).2 → (∃ i, w = .pkt i) ∨ w = .r := by
+/-- every packet handed to `fire` gets its report -/
+theorem fire_reports (rk : Report) (re : List Nat) (up : Bool) (l : List (Nat × Nat)) : ∀ (s : St),
+    ∀ e ∈ l, Out.report e.2 rk ∈ (fire rk re up s l).2 := by
   induction l with
-  | nil => intro s w h; simp [fireAcked] at h
+  | nil => intro s e he; cases he
+  | cons x t ih =>
+    intro s e he
+    simp only [fire]
+    rcases List.mem_cons.mp he with h | h
+    · subst h; simp
+    · apply List.mem_cons_of_mem
+      apply List.mem_append.mpr; right
+      exact ih _ e h
+
+theorem fire_wire (rk : Report) (re : List Nat) (up : Bool) (l : List (Nat × Nat)) : ∀ (s : St) (w : Wire),
+    Out.wire w ∈ (fire rk re up s l).2 → (∃ i, w = .pkt i) ∨ w = .r := by
+  induction l with
+  | nil => intro s w h; simp [fire] at h
   | cons e t ih =>
     intro s w h
-    simp only [fireAcked] at h
+    simp only [fire] at h
     rcases List.mem_cons.mp h with h | h
     · cases h
     · rcases List.mem_append.mp h with h | h
@@ -469,36 +506,56 @@ theorem fireAcked_wire (re : List Nat) (up : Bool) (l : List (Nat × Nat)) : ∀
         · simp at h
       · exact ih _ w h
 
-theorem fireAcked_nil (up : Bool) (l : List (Nat × Nat)) (s : St) :
-    fireAcked [] up s l = (s, ackReports l) := by
+theorem fire_none (rk : Report) (re : List Nat) (up : Bool) (l : List (Nat × Nat)) (s : St)
+    (hn : ∀ e ∈ l, re.contains e.2 = false) :
+    fire rk re up s l = (s, l.map fun e => .report e.2 rk) := by
   induction l generalizing s with
   | nil => rfl
-  | cons e t ih => simp [fireAcked, ih, ackReports]
+  | cons e t ih =>
+    have h1 := hn e (by simp)
+    simp only [fire, h1, Bool.false_eq_true, if_false, List.nil_append]
+    rw [ih s (fun x hx => hn x (by simp [hx]))]
+    simp
 
-theorem keptPart_idem (h : Nat) (l : List (Nat × Nat)) : keptPart h (keptPart h l) = keptPart h l := by
+theorem fire_nil (rk : Report) (up : Bool) (l : List (Nat × Nat)) (s : St) :
+    fire rk [] up s l = (s, l.map fun e => .report e.2 rk) :=
+  fire_none rk [] up l s (by simp)
+
+/-- with stream management on, whatever the continuations write is stored when they are done -/
+theorem fire_stored (rk : Report) (re : List Nat) (up : Bool) (l : List (Nat × Nat)) : ∀ s : St,
+    s.enabled = true → ∀ p ∈ pktsOf (fire rk re up s l).2, p ∈ ids (fire rk re up s l).1.unacked := by
+  induction l with
+  | nil => intro s _ p hp; simp [fire] at hp
+  | cons e t ih =>
+    intro s hen p hp
+    simp only [fire] at hp ⊢
+    split at hp
+    · rename_i hc
+      simp only [hc, if_true]
+      simp only [pktsOf_report, pktsOf_append, List.mem_append] at hp
+      rcases hp with hp | hp
+      · have hp' := sendStep_pkts s true up p hp
+        obtain ⟨extra, h1, _⟩ := fire_unacked rk re up t (sendStep s true up).1
+        rw [h1]
+        have : (sendStep s true up).1.unacked = s.unacked ++ [(s.lastOut + 1, s.nextId)] := by
+          simp [sendStep, hen]
+        rw [this, hp']
+        simp [ids]
+      · exact ih _ (by rw [sendStep_enabled]; exact hen) p hp
+    · rename_i hc
+      simp only [hc]
+      simp only [pktsOf_report, List.nil_append] at hp
+      exact ih s hen p hp
+
+/-- the wire part of `fire`: only what the continuations send -/
+theorem wireOf_fire_nil (rk : Report) (up : Bool) (l : List (Nat × Nat)) (s : St) :
+    wireOf (fire rk [] up s l).2 = [] := by
+  rw [fire_nil]
   induction l with
   | nil => rfl
-  | cons x t ih =>
-    by_cases hx : x.1 ≤ h
-    · have e : keptPart h (x :: t) = keptPart h t := by simp [keptPart, hx]
-      rw [e, ih]
-    · have e : keptPart h (x :: t) = x :: t := by simp [keptPart, hx]
-      rw [e, e]
+  | cons e t ih => simpa [wireOf] using ih
 
-theorem ackedPart_kept (h : Nat) (l : List (Nat × Nat)) : ackedPart h (keptPart h l) = [] := by
-  induction l with
-  | nil => rfl
-  | cons x t ih =>
-    by_cases hx : x.1 ≤ h
-    · have e : keptPart h (x :: t) = keptPart h t := by simp [keptPart, hx]
-      rw [e, ih]
-    · have e : keptPart h (x :: t) = x :: t := by simp [keptPart, hx]
-      rw [e]; simp [ackedPart, hx]
-
-theorem ackPhase_nil (s : St) (h : Nat) (up : Bool) :
-    ackPhase s h [] up =
-      ({ s with unacked := keptPart h s.unacked }, ackReports (ackedPart h s.unacked)) := by
-  simp [ackPhase, fireAcked_nil, keptPart_idem, ackedPart_kept, ackReports]
+/-! #### the handled count of `<failed h/>` -/
 
 theorem keysInv_kept (s : St) (h : Nat) (hk : KeysInv s) :
     KeysInv { s with unacked := keptPart h s.unacked } := by
@@ -506,100 +563,164 @@ theorem keysInv_kept (s : St) (h : Nat) (hk : KeysInv s) :
   obtain ⟨a', h1, h2, h3⟩ := hk.keptPart h
   exact ⟨a', by omega, h2, by simp only; omega⟩
 
-theorem ackPhase_keys (s : St) (h : Nat) (re : List Nat) (up : Bool) (hk : KeysInv s) :
-    KeysInv (ackPhase s h re up).1 := by
-  unfold ackPhase
-  exact keysInv_kept _ h (fireAcked_keys re up _ _ (keysInv_kept s h hk))
+theorem takeHandled_fields (s : St) :
+    (takeHandled s).1.nextId = s.nextId ∧ (takeHandled s).1.lastOut = s.lastOut ∧
+    (takeHandled s).1.lastIn = s.lastIn ∧ (takeHandled s).1.enabled = s.enabled ∧
+    (takeHandled s).1.handled = none := by
+  unfold takeHandled; split
+  · exact ⟨rfl, rfl, rfl, rfl, rfl⟩
+  · rename_i h; exact ⟨rfl, rfl, rfl, rfl, h⟩
 
-theorem ackPhase_mono (s : St) (h : Nat) (re : List Nat) (up : Bool) :
-    s.nextId ≤ (ackPhase s h re up).1.nextId ∧ (ackPhase s h re up).1.enabled = s.enabled ∧
-    (ackPhase s h re up).1.lastIn = s.lastIn := by
-  unfold ackPhase
-  obtain ⟨h1, _, h3, h4⟩ := fireAcked_mono re up (ackedPart h s.unacked) { s with unacked := keptPart h s.unacked }
-  exact ⟨h1, h3, h4⟩
+theorem takeHandled_cnt (s : St) (p : Nat) :
+    (ids (takeHandled s).2).count p + (ids (takeHandled s).1.unacked).count p = (ids s.unacked).count p := by
+  unfold takeHandled; split
+  · exact split_cnt _ _ p
+  · simp [ids]
 
-theorem ackPhase_eff (s : St) (h : Nat) (re : List Nat) (up : Bool) :
-    Eff s (ackPhase s h re up).1 [] (ackPhase s h re up).2 := by
-  refine ⟨(ackPhase_mono s h re up).1, ?_⟩
-  intro p
-  unfold ackPhase
-  have h1 := (fireAcked_eff re up (ackedPart h s.unacked) { s with unacked := keptPart h s.unacked }).cnt p
-  have h2 := congrArg (List.count p) (ids_acked_kept h s.unacked)
-  have h3 := congrArg (List.count p) (ids_acked_kept h
-    (fireAcked re up { s with unacked := keptPart h s.unacked } (ackedPart h s.unacked)).1.unacked)
-  simp only [List.count_append] at h2 h3
-  simp only [reportedIds_append, reportedIds_ackReports, List.count_append, List.count_nil] at h1 ⊢
-  unfold fresh at h1 ⊢
-  simp only at h1 ⊢
-  split at h1 <;> split <;> omega
+theorem takeHandled_keys (s : St) (h : KeysInv s) : KeysInv (takeHandled s).1 := by
+  unfold takeHandled; split
+  · rename_i hf _
+    have := keysInv_kept s hf h
+    obtain ⟨a, h1, h2, h3⟩ := this
+    exact ⟨a, h1, h2, h3⟩
+  · exact h
 
-/-- entries of the map after the acknowledgement phase: old ones, or appended by a continuation -/
-theorem ackPhase_unacked (s : St) (h : Nat) (re : List Nat) (up : Bool) :
-    ∀ e ∈ (ackPhase s h re up).1.unacked,
-      e ∈ s.unacked ∨ (s.lastOut < e.1 ∧ s.nextId ≤ e.2 ∧ e.2 < (ackPhase s h re up).1.nextId) := by
+theorem takeHandled_taken (s : St) : ∀ e ∈ (takeHandled s).2,
+    e ∈ s.unacked ∧ ∃ hf, s.handled = some hf ∧ e.1 ≤ hf := by
   intro e he
-  unfold ackPhase at he ⊢
-  obtain ⟨extra, h1, h2⟩ := fireAcked_unacked re up (ackedPart h s.unacked) { s with unacked := keptPart h s.unacked }
-  have he' := mem_keptPart he
-  rw [h1] at he'
-  rcases List.mem_append.mp he' with h3 | h3
-  · exact Or.inl (mem_keptPart h3)
-  · exact Or.inr (h2 e h3)
-
-theorem ackPhase_pkts (s : St) (h : Nat) (re : List Nat) (up : Bool) :
-    ∀ p ∈ pktsOf (ackPhase s h re up).2, s.nextId ≤ p ∧ p < (ackPhase s h re up).1.nextId := by
-  intro p hp
-  unfold ackPhase at hp ⊢
-  simp only [pktsOf_append, pktsOf_ackReports, List.append_nil] at hp
-  exact fireAcked_pkts re up _ _ p hp
-
-/-- "acknowledged" during the acknowledgement phase: a stored packet with number `≤ h`, or one a
-continuation has just appended (number beyond `lastOut`, still `≤ h`) -/
-theorem ackPhase_acked (s : St) (h : Nat) (re : List Nat) (up : Bool) (p : Nat)
-    (hm : Out.report p .acked ∈ (ackPhase s h re up).2) :
-    ∃ k, k ≤ h ∧ ((k, p) ∈ s.unacked ∨ (s.lastOut < k ∧ s.nextId ≤ p)) := by
-  unfold ackPhase at hm
-  rcases List.mem_append.mp hm with hm | hm
-  · obtain ⟨e, he, hp⟩ := fireAcked_acked re up _ _ p hm
+  unfold takeHandled at he; split at he
+  · rename_i hf hh
     have := mem_ackedPart he
-    exact ⟨e.1, this.2, Or.inl (by rw [← hp]; exact this.1)⟩
-  · simp only [ackReports, List.mem_map, Out.report.injEq] at hm
-    obtain ⟨e, he, hp, _⟩ := hm
-    have h1 := mem_ackedPart he
-    obtain ⟨extra, h2, h3⟩ := fireAcked_unacked re up (ackedPart h s.unacked) { s with unacked := keptPart h s.unacked }
-    have h4 := h1.1
-    rw [h2] at h4
-    rcases List.mem_append.mp h4 with h5 | h5
-    · exact ⟨e.1, h1.2, Or.inl (by rw [← hp]; exact mem_keptPart h5)⟩
-    · have := h3 e h5
-      exact ⟨e.1, h1.2, Or.inr ⟨this.1, by rw [← hp]; exact this.2.1⟩⟩
+    exact ⟨this.1, hf, hh, this.2⟩
+  · cases he
 
-theorem ackPhase_wire (s : St) (h : Nat) (re : List Nat) (up : Bool) (w : Wire)
-    (hm : Out.wire w ∈ (ackPhase s h re up).2) : (∃ i, w = .pkt i) ∨ w = .r := by
-  unfold ackPhase at hm
-  rcases List.mem_append.mp hm with hm | hm
-  · exact fireAcked_wire re up _ _ w hm
-  · simp [ackReports] at hm
+theorem takeHandled_left (s : St) : ∀ e ∈ (takeHandled s).1.unacked, e ∈ s.unacked := by
+  intro e he
+  unfold takeHandled at he; split at he
+  · exact mem_keptPart he
+  · exact he
+
+theorem takeHandled_eq_beyond (s : St) {a : Nat} (hk : KeysFrom a s.unacked) :
+    (takeHandled s).1.unacked = beyond s.handled s.unacked := by
+  unfold takeHandled beyond; split
+  · rename_i hf hh; simp only [hh]; exact hk.keptPart_eq_filter
+  · rename_i hh; simp only [hh]
+
+/-! #### switching stream management on and writing the stored packets again -/
+
+theorem enableCore_fields (s : St) (reset up : Bool) :
+    (enableCore s reset up).1.nextId = s.nextId ∧ (enableCore s reset up).1.enabled = true ∧
+    (enableCore s reset up).1.handled = s.handled ∧ ids (enableCore s reset up).1.unacked = ids s.unacked ∧
+    reportedIds (enableCore s reset up).2 = [] := by
+  unfold enableCore
+  refine ⟨by split <;> rfl, by split <;> rfl, by split <;> rfl, by split <;> simp, ?_⟩
+  simp only
+  split <;> simp [reportedIds_append]
+
+theorem enableCore_keys (s : St) (reset up : Bool) (h : KeysInv s) : KeysInv (enableCore s reset up).1 := by
+  unfold enableCore
+  split
+  · exact ⟨1, Nat.le_refl _, renumber_keysFrom 0 _, by simp; omega⟩
+  · exact h
+
+theorem enableCore_pkts (s : St) (reset up : Bool) :
+    ∀ p ∈ pktsOf (enableCore s reset up).2, p ∈ ids s.unacked := by
+  intro p hp
+  unfold enableCore at hp
+  simp only at hp
+  split at hp
+  · simp at hp
+  · simp only [pktsOf_append, pktsOf_resendOut, pktsOf_reqOut, List.append_nil] at hp
+    split at hp
+    · exact hp
+    · simp at hp
+
+theorem enableCore_wire (s : St) (reset up : Bool) (w : Wire)
+    (hm : Out.wire w ∈ (enableCore s reset up).2) : (∃ i, w = .pkt i) ∨ w = .r := by
+  unfold enableCore at hm
+  simp only at hm
+  split at hm
+  · simp at hm
+  · simp only [resendOut, reqOut, emit, List.mem_append, List.mem_flatMap] at hm
+    rcases hm with ⟨e, _, hm⟩ | hm
+    · cases up <;> simp at hm
+      exact Or.inl ⟨_, hm⟩
+    · cases up <;> simp at hm
+      exact Or.inr hm
+
+theorem enableCore_not_acked (s : St) (reset up : Bool) (p : Nat) :
+    Out.report p .acked ∉ (enableCore s reset up).2 := by
+  intro hm
+  have : p ∈ reportedIds (enableCore s reset up).2 := by
+    simp only [reportedIds, List.mem_filterMap]; exact ⟨_, hm, rfl⟩
+  rw [(enableCore_fields s reset up).2.2.2.2] at this
+  cases this
+
+theorem Eff.trans {s s1 s2 : St} {o1 o2 : List Out} (h1 : Eff s s1 [] o1) (h2 : Eff s1 s2 [] o2) :
+    Eff s s2 [] (o1 ++ o2) := by
+  refine ⟨Nat.le_trans h1.mono h2.mono, ?_⟩
+  intro p
+  have a := h1.cnt p
+  have b := h2.cnt p
+  have c := fresh_trans s s1 s2 p h1.mono h2.mono
+  simp only [reportedIds_append, List.count_append, List.count_nil] at a b ⊢
+  omega
+
+/-- `takeAcknowledged(handled)` followed by the reports -/
+theorem takeFire_eff (s : St) (re : List Nat) (up : Bool) :
+    Eff s (fire .acked re up (takeHandled s).1 (takeHandled s).2).1 []
+      (fire .acked re up (takeHandled s).1 (takeHandled s).2).2 := by
+  have tf := takeHandled_fields s
+  have e := fire_eff .acked re up (takeHandled s).2 (takeHandled s).1
+  refine ⟨by have := e.mono; omega, ?_⟩
+  intro p
+  have h1 := e.cnt p
+  have h2 := takeHandled_cnt s p
+  have h3 := fresh_congr (takeHandled s).1 s (fire .acked re up (takeHandled s).1 (takeHandled s).2).1
+    (fire .acked re up (takeHandled s).1 (takeHandled s).2).1 p tf.1 rfl
+  simp only [List.count_nil] at h1 ⊢
+  omega
+
+theorem discAll_eff (s : St) (re : List Nat) (up : Bool) : Eff s (discAll re up s).1 [] (discAll re up s).2 := by
+  have e := fire_eff .disconnected re up s.unacked { s with unacked := [] }
+  have m := e.mono
+  refine ⟨m, ?_⟩
+  intro p
+  have h1 := e.cnt p
+  have h3 := fresh_congr { s with unacked := [] } s (fire .disconnected re up { s with unacked := [] } s.unacked).1
+    (fire .disconnected re up { s with unacked := [] } s.unacked).1 p rfl rfl
+  simp only [discAll, reportedIds_append, reportedIds_discReports, List.count_append, List.count_nil, ids,
+    List.map_nil] at h1 h3 ⊢
+  have h4 : fresh s { (fire .disconnected re up { s with unacked := [] } s.unacked).1 with unacked := [] } p
+      = fresh s (fire .disconnected re up { s with unacked := [] } s.unacked).1 p := rfl
+  rw [h4]
+  omega
+
+theorem discAll_fields (s : St) (re : List Nat) (up : Bool) :
+    (discAll re up s).1.unacked = [] ∧ s.lastOut ≤ (discAll re up s).1.lastOut ∧
+    (discAll re up s).1.enabled = s.enabled ∧ (discAll re up s).1.lastIn = s.lastIn ∧
+    (discAll re up s).1.handled = s.handled ∧ s.nextId ≤ (discAll re up s).1.nextId := by
+  have m := fire_mono .disconnected re up s.unacked { s with unacked := [] }
+  exact ⟨rfl, m.2.1, m.2.2.1, m.2.2.2.1, m.2.2.2.2, m.1⟩
 
 /-! #### one step -/
-
-theorem reportedIds_resendBlockOut (up : Bool) (l : List (Nat × Nat)) :
-    reportedIds (if l.isEmpty = true then [] else resendOut up l ++ reqOut true up) = [] := by
-  split <;> simp [reportedIds_append]
 
 theorem step_eff (s : St) (op : Op) : Eff s (step s op).1 [] (step s op).2 := by
   cases op with
   | send stanza up => exact sendStep_eff s stanza up
-  | ack h =>
+  | ack h re up =>
     simp only [step]
     split
-    · refine ⟨Nat.le_refl _, ?_⟩
+    · have e := fire_eff .acked re up (ackedPart h s.unacked) { s with unacked := keptPart h s.unacked }
+      refine ⟨e.mono, ?_⟩
       intro p
-      have h2 := congrArg (List.count p) (ids_acked_kept h s.unacked)
-      simp only [List.count_append] at h2
-      simp only [reportedIds_ackReports, List.count_nil]
-      unfold fresh; simp only
-      split <;> omega
+      have h1 := e.cnt p
+      have h2 := split_cnt h s.unacked p
+      have h3 := fresh_congr { s with unacked := keptPart h s.unacked } s
+        (fire .acked re up { s with unacked := keptPart h s.unacked } (ackedPart h s.unacked)).1
+        (fire .acked re up { s with unacked := keptPart h s.unacked } (ackedPart h s.unacked)).1 p rfl rfl
+      simp only [List.count_nil] at h1 ⊢
+      omega
     · exact Eff.same rfl rfl rfl
   | ackReq up =>
     simp only [step]
@@ -608,66 +729,78 @@ theorem step_eff (s : St) (op : Op) : Eff s (step s op).1 [] (step s op).2 := by
     simp only [step]
     split <;> exact Eff.same rfl rfl rfl
   | sessionClosed => exact Eff.same rfl rfl rfl
-  | enabledNew up =>
+  | enabledNew re up =>
     simp only [step]
-    exact Eff.same rfl (by simp) (by split <;> simp [reportedIds_append])
+    have tf := takeHandled_fields s
+    have ef := enableCore_fields (takeHandled s).1 true up
+    have e := fire_eff .acked re up (takeHandled s).2 (enableCore (takeHandled s).1 true up).1
+    refine ⟨by have := e.mono; omega, ?_⟩
+    intro p
+    have h1 := e.cnt p
+    have h2 := takeHandled_cnt s p
+    have h3 := fresh_congr (enableCore (takeHandled s).1 true up).1 s
+      (fire .acked re up (enableCore (takeHandled s).1 true up).1 (takeHandled s).2).1
+      (fire .acked re up (enableCore (takeHandled s).1 true up).1 (takeHandled s).2).1 p (by omega) rfl
+    simp only [reportedIds_append, ef.2.2.2.2, ef.2.2.2.1, List.nil_append, List.count_nil] at h1 ⊢
+    omega
   | resumeReq up => exact Eff.same rfl rfl (by simp [step])
-  | resumed h up =>
+  | resumed h re up =>
     simp only [step]
-    refine ⟨Nat.le_refl _, ?_⟩
+    have tf := takeHandled_fields { s with unacked := keptPart h s.unacked }
+    have ef := enableCore_fields (takeHandled { s with unacked := keptPart h s.unacked }).1 false up
+    have e1 := fire_eff .acked re up (takeHandled { s with unacked := keptPart h s.unacked }).2
+      (enableCore (takeHandled { s with unacked := keptPart h s.unacked }).1 false up).1
+    have e2 := fire_eff .acked re up (ackedPart h s.unacked)
+      (fire .acked re up (enableCore (takeHandled { s with unacked := keptPart h s.unacked }).1 false up).1
+        (takeHandled { s with unacked := keptPart h s.unacked }).2).1
+    have m1 := e1.mono
+    have m2 := e2.mono
+    refine ⟨by simp only at tf; omega, ?_⟩
     intro p
-    have h2 := congrArg (List.count p) (ids_acked_kept h s.unacked)
-    simp only [List.count_append] at h2
-    simp only [reportedIds_append, reportedIds_ackReports, reportedIds_resendBlockOut, List.append_nil,
-      List.count_nil]
-    unfold fresh; simp only
-    split <;> omega
-  | resetCache =>
+    have h1 := e1.cnt p
+    have h2 := e2.cnt p
+    have h3 := takeHandled_cnt { s with unacked := keptPart h s.unacked } p
+    have h4 := split_cnt h s.unacked p
+    have h5 := fresh_trans (enableCore (takeHandled { s with unacked := keptPart h s.unacked }).1 false up).1 _ _ p m1 m2
+    have h6 := fresh_congr (enableCore (takeHandled { s with unacked := keptPart h s.unacked }).1 false up).1 s
+      (fire .acked re up (fire .acked re up (enableCore (takeHandled { s with unacked := keptPart h s.unacked }).1 false up).1
+        (takeHandled { s with unacked := keptPart h s.unacked }).2).1 (ackedPart h s.unacked)).1
+      (fire .acked re up (fire .acked re up (enableCore (takeHandled { s with unacked := keptPart h s.unacked }).1 false up).1
+        (takeHandled { s with unacked := keptPart h s.unacked }).2).1 (ackedPart h s.unacked)).1 p
+      (by simp only at tf; omega) rfl
+    simp only [reportedIds_append, ef.2.2.2.2, ef.2.2.2.1, List.nil_append, List.count_append,
+      List.count_nil] at h1 h2 h3 ⊢
+    omega
+  | resumeFailed h =>
     simp only [step]
-    refine ⟨Nat.le_refl _, ?_⟩
-    intro p
-    unfold fresh
-    simp [reportedIds_discReports, ids]
-  | ackRe h re up =>
+    split <;> exact Eff.same rfl rfl rfl
+  | resetCache re up =>
     simp only [step]
-    split
-    · exact ackPhase_eff s h re up
-    · exact Eff.same rfl rfl rfl
-  | resumedRe h re up =>
-    simp only [step]
-    have e := ackPhase_eff s h re up
-    refine ⟨e.mono, ?_⟩
-    intro p
-    have := e.cnt p
-    simp only [reportedIds_append, reportedIds_resendBlockOut, List.append_nil] at this ⊢
-    unfold fresh at this ⊢
-    exact this
-  | resumeFailed h => exact Eff.same rfl rfl rfl
+    exact (takeFire_eff s re up).trans (discAll_eff _ re up)
 
 theorem step_keys (s : St) (op : Op) (h : KeysInv s) : KeysInv (step s op).1 := by
   cases op with
   | send stanza up => exact sendStep_keys s stanza up h
-  | ack h' =>
+  | ack h' re up =>
     simp only [step]
     split
-    · exact keysInv_kept s h' h
+    · exact fire_keys _ re up _ _ (keysInv_kept s h' h)
     · exact h
   | ackReq up => exact h
   | recv k => simp only [step]; split <;> exact h
   | sessionClosed => exact h
-  | enabledNew up =>
-    exact ⟨1, Nat.le_refl _, renumber_keysFrom 0 _, by simp [step]; omega⟩
+  | enabledNew re up =>
+    exact fire_keys _ re up _ _ (enableCore_keys _ true up (takeHandled_keys s h))
   | resumeReq up => exact h
-  | resumed h' up => exact keysInv_kept s h' h
-  | resetCache =>
-    exact ⟨s.lastOut + 1, by omega, trivial, by simp [step]⟩
-  | ackRe h' re up =>
+  | resumed h' re up =>
+    exact fire_keys _ re up _ _ (fire_keys _ re up _ _
+      (enableCore_keys _ false up (takeHandled_keys _ (keysInv_kept s h' h))))
+  | resumeFailed h' => simp only [step]; split <;> exact h
+  | resetCache re up =>
     simp only [step]
-    split
-    · exact ackPhase_keys s h' re up h
-    · exact h
-  | resumedRe h' re up => exact ackPhase_keys s h' re up h
-  | resumeFailed h' => exact h
+    have f := discAll_fields (fire .acked re up (takeHandled s).1 (takeHandled s).2).1 re up
+    exact ⟨(discAll re up (fire .acked re up (takeHandled s).1 (takeHandled s).2).1).1.lastOut + 1,
+      by omega, by rw [f.1]; trivial, by rw [f.1]; simp⟩
 
 structure Inv (s : St) (log : List Out) : Prop where
   keys : KeysInv s
@@ -721,16 +854,11 @@ theorem Inv.reachable (ops : List Op) :
 
 /-! ### what may appear on the wire -/
 
-theorem sendStep_pkts (s : St) (st up : Bool) : ∀ p ∈ pktsOf (sendStep s st up).2, p = s.nextId := by
+theorem discAll_pkts (s : St) (re : List Nat) (up : Bool) :
+    ∀ p ∈ pktsOf (discAll re up s).2, s.nextId ≤ p ∧ p < (discAll re up s).1.nextId := by
   intro p hp
-  unfold sendStep at hp
-  split at hp
-  · simp only [pktsOf_append, pktsOf_emit_pkt, pktsOf_emit_r, pktsOf_written, List.append_nil] at hp
-    split at hp <;> simp at hp
-    exact hp
-  · simp only [pktsOf_append, pktsOf_emit_pkt, pktsOf_report, pktsOf_written, List.append_nil] at hp
-    split at hp <;> simp at hp
-    exact hp
+  simp only [discAll, pktsOf_append, pktsOf_discReports, List.append_nil] at hp
+  exact fire_pkts .disconnected re up s.unacked { s with unacked := [] } p hp
 
 /-- what a step writes is either a stored packet or one it has just created -/
 theorem step_pkts (s : St) (op : Op) :
@@ -741,59 +869,67 @@ theorem step_pkts (s : St) (op : Op) :
     have := sendStep_pkts s stanza up p hp
     have hn := sendStep_nextId s stanza up
     right; simp only [step]; omega
-  | ack h =>
-    simp only [step] at hp
-    split at hp <;> simp at hp
+  | ack h re up =>
+    simp only [step] at hp ⊢
+    split at hp
+    · rename_i he
+      rw [if_pos he]
+      exact Or.inr (fire_pkts .acked re up _ { s with unacked := keptPart h s.unacked } p hp)
+    · simp at hp
   | ackReq up =>
     simp only [step] at hp
     split at hp <;> simp at hp
   | recv k => simp [step] at hp
   | sessionClosed => simp [step] at hp
-  | enabledNew up =>
-    simp only [step] at hp
-    split at hp
-    · simp at hp
-    · simp only [pktsOf_append, pktsOf_resendOut, pktsOf_reqOut, List.append_nil] at hp
-      split at hp
-      · exact Or.inl hp
-      · simp at hp
-  | resumeReq up => simp [step] at hp
-  | resumed h up =>
-    simp only [step, pktsOf_append, pktsOf_ackReports, List.nil_append] at hp
-    split at hp
-    · simp at hp
-    · simp only [pktsOf_append, pktsOf_resendOut, pktsOf_reqOut, List.append_nil] at hp
-      split at hp
-      · left
-        simp only [ids, List.mem_map] at hp ⊢
-        obtain ⟨e, he, hpe⟩ := hp
-        exact ⟨e, mem_keptPart he, hpe⟩
-      · simp at hp
-  | resetCache =>
-    simp only [step, pktsOf_discReports] at hp
-    simp at hp
-  | ackRe h re up =>
-    simp only [step] at hp ⊢
-    split at hp
-    · rename_i he
-      simp only [he, if_true]
-      exact Or.inr (ackPhase_pkts s h re up p hp)
-    · simp at hp
-  | resumedRe h re up =>
+  | enabledNew re up =>
     simp only [step, pktsOf_append] at hp ⊢
+    have tf := takeHandled_fields s
+    have ef := enableCore_fields (takeHandled s).1 true up
     rcases List.mem_append.mp hp with hp | hp
-    · exact Or.inr (ackPhase_pkts s h re up p hp)
-    · split at hp
-      · simp at hp
-      · simp only [pktsOf_append, pktsOf_resendOut, pktsOf_reqOut, List.append_nil] at hp
-        split at hp
-        · simp only [ids, List.mem_map] at hp
-          obtain ⟨e, he, hpe⟩ := hp
-          rcases ackPhase_unacked s h re up e he with h1 | h1
-          · left; simp only [ids, List.mem_map]; exact ⟨e, h1, hpe⟩
-          · right; rw [← hpe]; exact ⟨h1.2.1, h1.2.2⟩
-        · simp at hp
-  | resumeFailed h => simp [step] at hp
+    · left
+      have := enableCore_pkts _ true up p hp
+      simp only [ids, List.mem_map] at this ⊢
+      obtain ⟨e, he, hpe⟩ := this
+      exact ⟨e, takeHandled_left s e he, hpe⟩
+    · right
+      have := fire_pkts .acked re up _ _ p hp
+      omega
+  | resumeReq up => simp [step] at hp
+  | resumed h re up =>
+    simp only [step, pktsOf_append] at hp ⊢
+    have tf := takeHandled_fields { s with unacked := keptPart h s.unacked }
+    have ef := enableCore_fields (takeHandled { s with unacked := keptPart h s.unacked }).1 false up
+    have m1 := (fire_mono .acked re up (takeHandled { s with unacked := keptPart h s.unacked }).2
+      (enableCore (takeHandled { s with unacked := keptPart h s.unacked }).1 false up).1).1
+    have m2 := (fire_mono .acked re up (ackedPart h s.unacked)
+      (fire .acked re up (enableCore (takeHandled { s with unacked := keptPart h s.unacked }).1 false up).1
+        (takeHandled { s with unacked := keptPart h s.unacked }).2).1).1
+    simp only at tf
+    rcases List.mem_append.mp hp with hp | hp
+    · rcases List.mem_append.mp hp with hp | hp
+      · left
+        have := enableCore_pkts _ false up p hp
+        simp only [ids, List.mem_map] at this ⊢
+        obtain ⟨e, he, hpe⟩ := this
+        exact ⟨e, mem_keptPart (takeHandled_left _ e he), hpe⟩
+      · right
+        have := fire_pkts .acked re up _ _ p hp
+        omega
+    · right
+      have := fire_pkts .acked re up _ _ p hp
+      omega
+  | resumeFailed h => simp only [step] at hp; simp at hp
+  | resetCache re up =>
+    simp only [step, pktsOf_append] at hp ⊢
+    have tf := takeHandled_fields s
+    have m1 := (fire_mono .acked re up (takeHandled s).2 (takeHandled s).1).1
+    have m2 := (discAll_fields (fire .acked re up (takeHandled s).1 (takeHandled s).2).1 re up).2.2.2.2.2
+    right
+    rcases List.mem_append.mp hp with hp | hp
+    · have := fire_pkts .acked re up _ _ p hp
+      omega
+    · have := discAll_pkts _ re up p hp
+      omega
 
 /-- a packet that has a report is never put on the wire again, whatever happens next -/
 theorem run_pkts_not_reported (ops : List Op) : ∀ (s : St) (log : List Out), Inv s log →
@@ -818,37 +954,30 @@ theorem run_pkts_not_reported (ops : List Op) : ∀ (s : St) (log : List Out), I
 theorem not_acked_mem_emit (p up w) : Out.report p .acked ∉ emit up w := by
   unfold emit; split <;> simp
 
-theorem mem_ackReports {p : Nat} {r : Report} {l : List (Nat × Nat)} (h : Out.report p r ∈ ackReports l) :
-    r = .acked ∧ ∃ k, (k, p) ∈ l := by
-  simp only [ackReports, List.mem_map, Out.report.injEq] at h
-  obtain ⟨e, he, h1, h2⟩ := h
-  exact ⟨h2.symm, e.1, by rw [← h1]; exact he⟩
+theorem discAll_not_acked (s : St) (re : List Nat) (up : Bool) (p : Nat) :
+    Out.report p .acked ∉ (discAll re up s).2 := by
+  intro hm
+  simp only [discAll] at hm
+  rcases List.mem_append.mp hm with hm | hm
+  · have := (fire_acked .disconnected re up _ _ p hm).1
+    cases this
+  · simp at hm
 
-theorem not_acked_mem_resend (p up l) : Out.report p .acked ∉ resendOut up l := by
-  simp only [resendOut, List.mem_flatMap, not_exists, not_and]
-  intro e _; exact not_acked_mem_emit p up _
-
-theorem not_acked_mem_reqOut (p e up) : Out.report p .acked ∉ reqOut e up := by
-  unfold reqOut; split
-  · exact not_acked_mem_emit p up _
-  · simp
-
-/-- one step reports "acknowledged" only while processing `<a h/>` (stream management on) or
-`<resumed h/>`, and only for a packet whose number is `≤ h`: one that was stored, or — with re-entrant
-continuations and `h` beyond the last number used — one a continuation has just sent -/
+/-- one step reports "acknowledged" only for a packet stored under a number `k ≤ h`, where `h` is the
+handled count of the element being processed (`<a h/>` with stream management on, `<resumed h/>`) or
+the count a `<failed h/>` has left behind -/
 theorem step_acked (s : St) (op : Op) (p : Nat) (hm : Out.report p .acked ∈ (step s op).2) :
-    ∃ h k, op.ackH = some h ∧ (op.isA = true → s.enabled = true) ∧ k ≤ h ∧
-      ((k, p) ∈ s.unacked ∨ (s.lastOut < k ∧ s.nextId ≤ p)) := by
+    ∃ h k, k ≤ h ∧ (k, p) ∈ s.unacked ∧
+      ((op.ackH = some h ∧ (op.isA = true → s.enabled = true)) ∨ s.handled = some h) := by
   cases op with
   | send stanza up => exact absurd hm (sendStep_not_acked s stanza up p)
-  | ack h =>
+  | ack h re up =>
     simp only [step] at hm
     split at hm
     · rename_i hen
-      simp only [ackReports, List.mem_map, Out.report.injEq] at hm
-      obtain ⟨e, he, h1, _⟩ := hm
+      obtain ⟨_, e, he, hp⟩ := fire_acked .acked re up _ _ p hm
       have := mem_ackedPart he
-      exact ⟨h, e.1, rfl, fun _ => hen, this.2, Or.inl (by rw [← h1]; exact this.1)⟩
+      exact ⟨h, e.1, this.2, by rw [← hp]; exact this.1, Or.inl ⟨rfl, fun _ => hen⟩⟩
     · simp at hm
   | ackReq up =>
     exfalso
@@ -858,55 +987,42 @@ theorem step_acked (s : St) (op : Op) (p : Nat) (hm : Out.report p .acked ∈ (s
     · simp at hm
   | recv k => simp [step] at hm
   | sessionClosed => simp [step] at hm
-  | enabledNew up =>
-    exfalso
+  | enabledNew re up =>
     simp only [step] at hm
-    split at hm
-    · simp at hm
-    · rcases List.mem_append.mp hm with h | h
-      · exact not_acked_mem_resend _ _ _ h
-      · exact not_acked_mem_reqOut _ _ _ h
+    rcases List.mem_append.mp hm with hm | hm
+    · exact absurd hm (enableCore_not_acked _ _ _ _)
+    · obtain ⟨_, e, he, hp⟩ := fire_acked .acked re up _ _ p hm
+      obtain ⟨h1, hf, h2, h3⟩ := takeHandled_taken s e he
+      exact ⟨hf, e.1, h3, by rw [← hp]; exact h1, Or.inr h2⟩
   | resumeReq up =>
     exfalso
     simp only [step] at hm
     exact not_acked_mem_emit _ _ _ hm
-  | resumed h up =>
+  | resumed h re up =>
     simp only [step] at hm
     rcases List.mem_append.mp hm with hm | hm
-    · simp only [ackReports, List.mem_map, Out.report.injEq] at hm
-      obtain ⟨e, he, h1, _⟩ := hm
+    · rcases List.mem_append.mp hm with hm | hm
+      · exact absurd hm (enableCore_not_acked _ _ _ _)
+      · obtain ⟨_, e, he, hp⟩ := fire_acked .acked re up _ _ p hm
+        obtain ⟨h1, hf, h2, h3⟩ := takeHandled_taken _ e he
+        exact ⟨hf, e.1, h3, by rw [← hp]; exact mem_keptPart h1, Or.inr h2⟩
+    · obtain ⟨_, e, he, hp⟩ := fire_acked .acked re up _ _ p hm
       have := mem_ackedPart he
-      exact ⟨h, e.1, rfl, by simp [Op.isA], this.2, Or.inl (by rw [← h1]; exact this.1)⟩
-    · exfalso
-      split at hm
-      · simp at hm
-      · rcases List.mem_append.mp hm with h | h
-        · exact not_acked_mem_resend _ _ _ h
-        · exact not_acked_mem_reqOut _ _ _ h
-  | resetCache =>
-    exfalso
-    simp [step] at hm
-  | ackRe h re up =>
-    simp only [step] at hm
-    split at hm
-    · rename_i hen
-      obtain ⟨k, h1, h2⟩ := ackPhase_acked s h re up p hm
-      exact ⟨h, k, rfl, fun _ => hen, h1, h2⟩
-    · simp at hm
-  | resumedRe h re up =>
+      exact ⟨h, e.1, this.2, by rw [← hp]; exact this.1, Or.inl ⟨rfl, by simp [Op.isA]⟩⟩
+  | resumeFailed h => simp only [step] at hm; simp at hm
+  | resetCache re up =>
     simp only [step] at hm
     rcases List.mem_append.mp hm with hm | hm
-    · obtain ⟨k, h1, h2⟩ := ackPhase_acked s h re up p hm
-      exact ⟨h, k, rfl, by simp [Op.isA], h1, h2⟩
-    · exfalso
-      split at hm
-      · simp at hm
-      · rcases List.mem_append.mp hm with h | h
-        · exact not_acked_mem_resend _ _ _ h
-        · exact not_acked_mem_reqOut _ _ _ h
-  | resumeFailed h => simp [step] at hm
+    · obtain ⟨_, e, he, hp⟩ := fire_acked .acked re up _ _ p hm
+      obtain ⟨h1, hf, h2, h3⟩ := takeHandled_taken s e he
+      exact ⟨hf, e.1, h3, by rw [← hp]; exact h1, Or.inr h2⟩
+    · exact absurd hm (discAll_not_acked _ _ _ _)
 
 /-! ### the inbound counter -/
+
+theorem enableCore_lastIn (s : St) (reset up : Bool) :
+    (enableCore s reset up).1.lastIn = if reset then 0 else s.lastIn := by
+  unfold enableCore; split <;> simp_all
 
 theorem step_sessionCount (s : St) (c : Bool × Nat) (op : Op)
     (h1 : c.1 = s.enabled) (h2 : s.lastIn = c.2) :
@@ -915,7 +1031,12 @@ theorem step_sessionCount (s : St) (c : Bool × Nat) (op : Op)
   cases op with
   | send stanza up =>
     simp only [step, sessionCountStep, sendStep_enabled, sendStep_lastIn]; exact ⟨h1, h2⟩
-  | ack h => simp only [step, sessionCountStep]; split <;> exact ⟨h1, h2⟩
+  | ack h re up =>
+    simp only [step, sessionCountStep]
+    split
+    · have m := fire_mono .acked re up (ackedPart h s.unacked) { s with unacked := keptPart h s.unacked }
+      exact ⟨by rw [m.2.2.1]; exact h1, by rw [m.2.2.2.1]; exact h2⟩
+    · exact ⟨h1, h2⟩
   | ackReq up => exact ⟨h1, h2⟩
   | recv k =>
     simp only [step, sessionCountStep]
@@ -924,21 +1045,31 @@ theorem step_sessionCount (s : St) (c : Bool × Nat) (op : Op)
     · exact ⟨rfl, by simp only; omega⟩
     · exact ⟨h1, h2⟩
   | sessionClosed => exact ⟨rfl, h2⟩
-  | enabledNew up => exact ⟨rfl, rfl⟩
+  | enabledNew re up =>
+    simp only [step, sessionCountStep]
+    have m := fire_mono .acked re up (takeHandled s).2 (enableCore (takeHandled s).1 true up).1
+    have ef := enableCore_fields (takeHandled s).1 true up
+    have el := enableCore_lastIn (takeHandled s).1 true up
+    exact ⟨by rw [m.2.2.1, ef.2.1], by rw [m.2.2.2.1, el]; rfl⟩
   | resumeReq up => exact ⟨h1, h2⟩
-  | resumed h up => exact ⟨rfl, h2⟩
-  | resetCache => exact ⟨h1, h2⟩
-  | ackRe h re up =>
+  | resumed h re up =>
     simp only [step, sessionCountStep]
-    split
-    · have := ackPhase_mono s h re up
-      exact ⟨by rw [this.2.1]; exact h1, by rw [this.2.2]; exact h2⟩
-    · exact ⟨h1, h2⟩
-  | resumedRe h re up =>
+    have tf := takeHandled_fields { s with unacked := keptPart h s.unacked }
+    have ef := enableCore_fields (takeHandled { s with unacked := keptPart h s.unacked }).1 false up
+    have el := enableCore_lastIn (takeHandled { s with unacked := keptPart h s.unacked }).1 false up
+    have m1 := fire_mono .acked re up (takeHandled { s with unacked := keptPart h s.unacked }).2
+      (enableCore (takeHandled { s with unacked := keptPart h s.unacked }).1 false up).1
+    have m2 := fire_mono .acked re up (ackedPart h s.unacked)
+      (fire .acked re up (enableCore (takeHandled { s with unacked := keptPart h s.unacked }).1 false up).1
+        (takeHandled { s with unacked := keptPart h s.unacked }).2).1
+    exact ⟨by rw [m2.2.2.1, m1.2.2.1, ef.2.1], by rw [m2.2.2.2.1, m1.2.2.2.1, el]; simp only [Bool.false_eq_true, if_false]; rw [tf.2.2.1]; exact h2⟩
+  | resumeFailed h => simp only [step, sessionCountStep]; split <;> exact ⟨h1, h2⟩
+  | resetCache re up =>
     simp only [step, sessionCountStep]
-    have := ackPhase_mono s h re up
-    exact ⟨trivial, by rw [this.2.2]; exact h2⟩
-  | resumeFailed h => exact ⟨h1, h2⟩
+    have tf := takeHandled_fields s
+    have m1 := fire_mono .acked re up (takeHandled s).2 (takeHandled s).1
+    have d := discAll_fields (fire .acked re up (takeHandled s).1 (takeHandled s).2).1 re up
+    exact ⟨by rw [d.2.2.1, m1.2.2.1, tf.2.2.2.1]; exact h1, by rw [d.2.2.2.1, m1.2.2.2.1, tf.2.2.1]; exact h2⟩
 
 theorem run_sessionCount (ops : List Op) : ∀ (s : St) (c : Bool × Nat),
     c.1 = s.enabled → s.lastIn = c.2 →
@@ -953,24 +1084,44 @@ theorem run_sessionCount (ops : List Op) : ∀ (s : St) (c : Bool × Nat),
 
 /-! ### what a step puts on the wire that carries a counter -/
 
-theorem resendBlockOut_wire (up : Bool) (l : List (Nat × Nat)) (w : Wire)
-    (hm : Out.wire w ∈ (if l.isEmpty = true then [] else resendOut up l ++ reqOut true up)) :
-    (∃ i, w = .pkt i) ∨ w = .r := by
-  split at hm
+theorem discAll_wire (s : St) (re : List Nat) (up : Bool) (w : Wire)
+    (hm : Out.wire w ∈ (discAll re up s).2) : (∃ i, w = .pkt i) ∨ w = .r := by
+  simp only [discAll] at hm
+  rcases List.mem_append.mp hm with hm | hm
+  · exact fire_wire _ re up _ _ w hm
   · simp at hm
-  · simp only [resendOut, reqOut, emit, List.mem_append, List.mem_flatMap] at hm
-    rcases hm with ⟨e, _, hm⟩ | hm
-    · cases up <;> simp at hm
-      exact Or.inl ⟨_, hm⟩
-    · cases up <;> simp at hm
-      exact Or.inr hm
+
+/-- every wire element of the composite operations is a packet or `<r/>` -/
+theorem step_wire_composite (s : St) (op : Op) (w : Wire) (hm : Out.wire w ∈ (step s op).2)
+    (hop : (∃ h re up, op = .ack h re up) ∨ (∃ re up, op = .enabledNew re up) ∨
+           (∃ h re up, op = .resumed h re up) ∨ (∃ re up, op = .resetCache re up)) :
+    (∃ i, w = .pkt i) ∨ w = .r := by
+  rcases hop with ⟨h, re, up, rfl⟩ | ⟨re, up, rfl⟩ | ⟨h, re, up, rfl⟩ | ⟨re, up, rfl⟩
+  · simp only [step] at hm
+    split at hm
+    · exact fire_wire _ re up _ _ w hm
+    · simp at hm
+  · simp only [step] at hm
+    rcases List.mem_append.mp hm with hm | hm
+    · exact enableCore_wire _ _ _ w hm
+    · exact fire_wire _ re up _ _ w hm
+  · simp only [step] at hm
+    rcases List.mem_append.mp hm with hm | hm
+    · rcases List.mem_append.mp hm with hm | hm
+      · exact enableCore_wire _ _ _ w hm
+      · exact fire_wire _ re up _ _ w hm
+    · exact fire_wire _ re up _ _ w hm
+  · simp only [step] at hm
+    rcases List.mem_append.mp hm with hm | hm
+    · exact fire_wire _ re up _ _ w hm
+    · exact discAll_wire _ re up w hm
 
 theorem step_wire_a (s : St) (op : Op) (k : Nat) (hm : Out.wire (.a k) ∈ (step s op).2) :
     k = s.lastIn ∧ s.enabled = true ∧ op = .ackReq true := by
   cases op with
-  | send stanza up =>
-    rcases sendStep_wire s stanza up _ hm with ⟨i, h⟩ | h <;> cases h
-  | ack h => simp only [step, ackReports] at hm; split at hm <;> simp at hm
+  | send stanza up => rcases sendStep_wire s stanza up _ hm with ⟨i, h⟩ | h <;> cases h
+  | ack h re up =>
+    rcases step_wire_composite s _ _ hm (Or.inl ⟨h, re, up, rfl⟩) with ⟨i, h⟩ | h <;> cases h
   | ackReq up =>
     simp only [step, emit] at hm
     split at hm
@@ -980,71 +1131,96 @@ theorem step_wire_a (s : St) (op : Op) (k : Nat) (hm : Out.wire (.a k) ∈ (step
     · simp at hm
   | recv kd => simp [step] at hm
   | sessionClosed => simp [step] at hm
-  | enabledNew up =>
-    simp only [step, resendOut, reqOut, emit] at hm
-    split at hm <;> cases up <;> simp at hm
+  | enabledNew re up =>
+    rcases step_wire_composite s _ _ hm (Or.inr (Or.inl ⟨re, up, rfl⟩)) with ⟨i, h⟩ | h <;> cases h
   | resumeReq up => simp only [step, emit] at hm; cases up <;> simp at hm
-  | resumed h up =>
-    simp only [step, resendOut, reqOut, emit, ackReports] at hm
-    rcases List.mem_append.mp hm with hm | hm
-    · simp at hm
-    · split at hm <;> cases up <;> simp at hm
-  | resetCache => simp [step] at hm
-  | ackRe h re up =>
-    simp only [step] at hm
-    split at hm
-    · rcases ackPhase_wire s h re up _ hm with ⟨i, h⟩ | h <;> cases h
-    · simp at hm
-  | resumedRe h re up =>
-    simp only [step] at hm
-    rcases List.mem_append.mp hm with hm | hm
-    · rcases ackPhase_wire s h re up _ hm with ⟨i, h⟩ | h <;> cases h
-    · rcases resendBlockOut_wire up _ _ hm with ⟨i, h⟩ | h <;> cases h
-  | resumeFailed h => simp [step] at hm
+  | resumed h re up =>
+    rcases step_wire_composite s _ _ hm (Or.inr (Or.inr (Or.inl ⟨h, re, up, rfl⟩))) with ⟨i, h⟩ | h <;> cases h
+  | resumeFailed h => simp only [step] at hm; simp at hm
+  | resetCache re up =>
+    rcases step_wire_composite s _ _ hm (Or.inr (Or.inr (Or.inr ⟨re, up, rfl⟩))) with ⟨i, h⟩ | h <;> cases h
 
 theorem step_wire_resume (s : St) (op : Op) (k : Nat) (hm : Out.wire (.resume k) ∈ (step s op).2) :
     k = s.lastIn ∧ op = .resumeReq true := by
   cases op with
-  | send stanza up =>
-    rcases sendStep_wire s stanza up _ hm with ⟨i, h⟩ | h <;> cases h
-  | ack h => simp only [step, ackReports] at hm; split at hm <;> simp at hm
+  | send stanza up => rcases sendStep_wire s stanza up _ hm with ⟨i, h⟩ | h <;> cases h
+  | ack h re up =>
+    rcases step_wire_composite s _ _ hm (Or.inl ⟨h, re, up, rfl⟩) with ⟨i, h⟩ | h <;> cases h
   | ackReq up =>
     simp only [step, emit] at hm
     split at hm <;> cases up <;> simp at hm
   | recv kd => simp [step] at hm
   | sessionClosed => simp [step] at hm
-  | enabledNew up =>
-    simp only [step, resendOut, reqOut, emit] at hm
-    split at hm <;> cases up <;> simp at hm
+  | enabledNew re up =>
+    rcases step_wire_composite s _ _ hm (Or.inr (Or.inl ⟨re, up, rfl⟩)) with ⟨i, h⟩ | h <;> cases h
   | resumeReq up =>
     simp only [step, emit] at hm
     cases up <;> simp at hm
     exact ⟨hm, rfl⟩
-  | resumed h up =>
-    simp only [step, resendOut, reqOut, emit, ackReports] at hm
-    rcases List.mem_append.mp hm with hm | hm
-    · simp at hm
-    · split at hm <;> cases up <;> simp at hm
-  | resetCache => simp [step] at hm
-  | ackRe h re up =>
-    simp only [step] at hm
-    split at hm
-    · rcases ackPhase_wire s h re up _ hm with ⟨i, h⟩ | h <;> cases h
-    · simp at hm
-  | resumedRe h re up =>
-    simp only [step] at hm
-    rcases List.mem_append.mp hm with hm | hm
-    · rcases ackPhase_wire s h re up _ hm with ⟨i, h⟩ | h <;> cases h
-    · rcases resendBlockOut_wire up _ _ hm with ⟨i, h⟩ | h <;> cases h
-  | resumeFailed h => simp [step] at hm
+  | resumed h re up =>
+    rcases step_wire_composite s _ _ hm (Or.inr (Or.inr (Or.inl ⟨h, re, up, rfl⟩))) with ⟨i, h⟩ | h <;> cases h
+  | resumeFailed h => simp only [step] at hm; simp at hm
+  | resetCache re up =>
+    rcases step_wire_composite s _ _ hm (Or.inr (Or.inr (Or.inr ⟨re, up, rfl⟩))) with ⟨i, h⟩ | h <;> cases h
 
-/-- without re-entrant continuations the new operations are the old ones -/
-theorem step_ackRe_nil (s : St) (h : Nat) (up : Bool) : step s (.ackRe h [] up) = step s (.ack h) := by
-  simp only [step, ackPhase_nil]
+/-! ### where a stored handled count comes from -/
 
-theorem step_resumedRe_nil (s : St) (h : Nat) (up : Bool) :
-    step s (.resumedRe h [] up) = step s (.resumed h up) := by
-  simp only [step, ackPhase_nil]
+theorem step_handled (s : St) (op : Op) (h : Nat) (hh : (step s op).1.handled = some h) :
+    s.handled = some h ∨ op = .resumeFailed (some h) := by
+  cases op with
+  | send stanza up => left; simpa [step, sendStep_handled] using hh
+  | ack h' re up =>
+    simp only [step] at hh
+    split at hh
+    · left
+      have m := fire_mono .acked re up (ackedPart h' s.unacked) { s with unacked := keptPart h' s.unacked }
+      rw [m.2.2.2.2] at hh; exact hh
+    · exact Or.inl hh
+  | ackReq up => exact Or.inl hh
+  | recv k => simp only [step] at hh; split at hh <;> exact Or.inl hh
+  | sessionClosed => exact Or.inl hh
+  | enabledNew re up =>
+    exfalso
+    simp only [step] at hh
+    have m := fire_mono .acked re up (takeHandled s).2 (enableCore (takeHandled s).1 true up).1
+    rw [m.2.2.2.2, (enableCore_fields _ true up).2.2.1, (takeHandled_fields s).2.2.2.2] at hh
+    cases hh
+  | resumeReq up => exact Or.inl hh
+  | resumed h' re up =>
+    exfalso
+    simp only [step] at hh
+    have m1 := fire_mono .acked re up (takeHandled { s with unacked := keptPart h' s.unacked }).2
+      (enableCore (takeHandled { s with unacked := keptPart h' s.unacked }).1 false up).1
+    have m2 := fire_mono .acked re up (ackedPart h' s.unacked)
+      (fire .acked re up (enableCore (takeHandled { s with unacked := keptPart h' s.unacked }).1 false up).1
+        (takeHandled { s with unacked := keptPart h' s.unacked }).2).1
+    rw [m2.2.2.2.2, m1.2.2.2.2, (enableCore_fields _ false up).2.2.1, (takeHandled_fields _).2.2.2.2] at hh
+    cases hh
+  | resumeFailed h' =>
+    cases h' with
+    | none => exact Or.inl hh
+    | some n =>
+      simp only [step, Option.some.injEq] at hh
+      right; rw [hh]
+  | resetCache re up =>
+    exfalso
+    simp only [step] at hh
+    have d := discAll_fields (fire .acked re up (takeHandled s).1 (takeHandled s).2).1 re up
+    have m1 := fire_mono .acked re up (takeHandled s).2 (takeHandled s).1
+    rw [d.2.2.2.2.1, m1.2.2.2.2, (takeHandled_fields s).2.2.2.2] at hh
+    cases hh
+
+theorem run_handled (ops : List Op) : ∀ (s : St) (h : Nat), (run s ops).1.handled = some h →
+    s.handled = some h ∨ Op.resumeFailed (some h) ∈ ops := by
+  induction ops with
+  | nil => intro s h hh; exact Or.inl hh
+  | cons op ops ih =>
+    intro s h hh
+    rcases ih _ h hh with h1 | h1
+    · rcases step_handled s op h h1 with h2 | h2
+      · exact Or.inl h2
+      · right; rw [h2]; simp
+    · right; simp [h1]
 
 /-! ### renumbering -/
 
@@ -1056,11 +1232,6 @@ theorem renumber_eq_zip (k : Nat) (l : List (Nat × Nat)) :
 
 
 /-! ### wire projection of the resend block -/
-
-@[simp] theorem wireOf_ackReports (l) : wireOf (ackReports l) = [] := by
-  induction l with
-  | nil => rfl
-  | cons e t ih => simp only [ackReports, List.map_cons] at ih ⊢; simp [wireOf] at ih ⊢
 
 theorem wireOf_resendOut_up (l : List (Nat × Nat)) :
     wireOf (resendOut true l) = l.map fun e => Wire.pkt e.2 := by
@@ -1077,32 +1248,38 @@ theorem wireOf_resendOut_down (l : List (Nat × Nat)) : wireOf (resendOut false 
     simp only [resendOut, List.flatMap_cons] at ih ⊢
     rw [wireOf_append, ih]; simp [emit]
 
-theorem wireOf_step_resumed_up (s : St) (h : Nat) :
-    wireOf (step s (.resumed h true)).2 = resendBlock (keptPart h s.unacked) := by
-  simp only [step, wireOf_append, wireOf_ackReports, List.nil_append, resendBlock]
+
+theorem wireOf_enableCore_up (s : St) (reset : Bool) :
+    wireOf (enableCore s reset true).2 = resendBlock s.unacked := by
+  simp only [enableCore, resendBlock]
   split
   · rfl
   · rw [wireOf_append, wireOf_resendOut_up]; simp [reqOut, emit, wireOf]
 
-theorem wireOf_step_enabledNew_up (s : St) :
-    wireOf (step s (.enabledNew true)).2 = resendBlock s.unacked := by
-  simp only [step, resendBlock]
-  split
-  · rfl
-  · rw [wireOf_append, wireOf_resendOut_up]; simp [reqOut, emit, wireOf]
-
-theorem wireOf_step_resumed_down (s : St) (h : Nat) : wireOf (step s (.resumed h false)).2 = [] := by
-  simp only [step, wireOf_append, wireOf_ackReports, List.nil_append]
+theorem wireOf_enableCore_down (s : St) (reset : Bool) : wireOf (enableCore s reset false).2 = [] := by
+  simp only [enableCore]
   split
   · rfl
   · rw [wireOf_append, wireOf_resendOut_down]; simp [reqOut, emit]
 
-theorem wireOf_step_enabledNew_down (s : St) : wireOf (step s (.enabledNew false)).2 = [] := by
-  simp only [step]
-  split
-  · rfl
-  · rw [wireOf_append, wireOf_resendOut_down]; simp [reqOut, emit]
+theorem wireOf_sendStep_down (s : St) (st : Bool) : wireOf (sendStep s st false).2 = [] := by
+  unfold sendStep; split <;> simp [emit, wireOf]
 
+theorem wireOf_fire_down (rk : Report) (re : List Nat) (l : List (Nat × Nat)) : ∀ s : St,
+    wireOf (fire rk re false s l).2 = [] := by
+  induction l with
+  | nil => intro s; rfl
+  | cons e t ih =>
+    intro s
+    simp only [fire]
+    split
+    · have h1 : wireOf (Out.report e.2 rk :: ((sendStep s true false).2 ++ (fire rk re false (sendStep s true false).1 t).2))
+          = wireOf (sendStep s true false).2 ++ wireOf (fire rk re false (sendStep s true false).1 t).2 := by
+        rw [← wireOf_append]; simp [wireOf]
+      rw [h1, wireOf_sendStep_down, ih]; rfl
+    · have h1 : wireOf (Out.report e.2 rk :: ([] ++ (fire rk re false s t).2)) = wireOf (fire rk re false s t).2 := by
+        simp [wireOf]
+      rw [h1, ih]
 
 /-! ### consequences of the key invariant, for an arbitrary state -/
 
@@ -1134,76 +1311,191 @@ theorem ids_nodup_unique {l : List (Nat × Nat)} (hnd : (ids l).Nodup) {k₁ k
     · exact ih hnd.2 a1 a2
 
 
-/-! ### re-entrant continuations: when they change nothing, and what they do at the `<a/>` site -/
+/-! ### coverage announced by `<failed h/>` -/
 
-theorem fireAcked_none (re : List Nat) (up : Bool) (l : List (Nat × Nat)) (s : St)
-    (hn : ∀ e ∈ l, re.contains e.2 = false) : fireAcked re up s l = (s, ackReports l) := by
-  induction l generalizing s with
-  | nil => rfl
-  | cons e t ih =>
-    have h1 := hn e (by simp)
-    simp only [fireAcked, h1, Bool.false_eq_true, if_false, List.nil_append]
-    rw [ih s (fun x hx => hn x (by simp [hx]))]
-    simp [ackReports]
+/-- the stored entries an operation writes again -/
+def resentOf (s : St) : Op → List (Nat × Nat)
+  | .enabledNew _ _ => (takeHandled s).1.unacked
+  | .resumed h _ _ => (takeHandled { s with unacked := keptPart h s.unacked }).1.unacked
+  | _ => []
 
-theorem ackPhase_none (s : St) (h : Nat) (re : List Nat) (up : Bool)
-    (hn : ∀ e ∈ s.unacked, e.1 ≤ h → re.contains e.2 = false) :
-    ackPhase s h re up =
-      ({ s with unacked := keptPart h s.unacked }, ackReports (ackedPart h s.unacked)) := by
-  have h1 : ∀ e ∈ ackedPart h s.unacked, re.contains e.2 = false := by
-    intro e he; have := mem_ackedPart he; exact hn e this.1 this.2
-  simp [ackPhase, fireAcked_none re up _ _ h1, keptPart_idem, ackedPart_kept, ackReports]
-
-theorem step_resumedRe_none (s : St) (h : Nat) (re : List Nat) (up : Bool)
-    (hn : ∀ e ∈ s.unacked, e.1 ≤ h → re.contains e.2 = false) :
-    step s (.resumedRe h re up) = step s (.resumed h up) := by
-  simp only [step, ackPhase_none s h re up hn]
-
-/-- with stream management on, whatever the continuations write is stored when they are done -/
-theorem fireAcked_stored (re : List Nat) (up : Bool) (l : List (Nat × Nat)) : ∀ s : St,
-    s.enabled = true → ∀ p ∈ pktsOf (fireAcked re up s l).2, p ∈ ids (fireAcked re up s l).1.unacked := by
-  induction l with
-  | nil => intro s _ p hp; simp [fireAcked] at hp
-  | cons e t ih =>
-    intro s hen p hp
-    simp only [fireAcked] at hp ⊢
+/-- an *old* packet (allocated before the step) on the wire is one of the entries written again -/
+theorem step_pkts_old (s : St) (op : Op) (p : Nat) (hp : p ∈ pktsOf (step s op).2) (hlt : p < s.nextId) :
+    p ∈ ids (resentOf s op) := by
+  cases op with
+  | send stanza up => have := sendStep_pkts s stanza up p hp; omega
+  | ack h re up =>
+    simp only [step] at hp
     split at hp
-    · rename_i hc
-      simp only [hc, if_true]
-      simp only [pktsOf_report, pktsOf_append, List.mem_append] at hp
-      rcases hp with hp | hp
-      · have hp' := sendStep_pkts s true up p hp
-        obtain ⟨extra, h1, _⟩ := fireAcked_unacked re up t (sendStep s true up).1
-        rw [h1]
-        have : (sendStep s true up).1.unacked = s.unacked ++ [(s.lastOut + 1, s.nextId)] := by
-          simp [sendStep, hen]
-        rw [this, hp']
-        simp [ids]
-      · exact ih _ (by rw [sendStep_enabled]; exact hen) p hp
-    · rename_i hc
-      simp only [hc]
-      simp only [pktsOf_report, List.nil_append] at hp
-      exact ih s hen p hp
+    · have := fire_pkts .acked re up _ { s with unacked := keptPart h s.unacked } p hp
+      simp only at this; omega
+    · simp at hp
+  | ackReq up => simp only [step] at hp; split at hp <;> simp at hp
+  | recv k => simp [step] at hp
+  | sessionClosed => simp [step] at hp
+  | enabledNew re up =>
+    simp only [step, pktsOf_append] at hp
+    have tf := takeHandled_fields s
+    have ef := enableCore_fields (takeHandled s).1 true up
+    rcases List.mem_append.mp hp with hp | hp
+    · exact enableCore_pkts _ true up p hp
+    · have := fire_pkts .acked re up _ _ p hp; omega
+  | resumeReq up => simp [step] at hp
+  | resumed h re up =>
+    simp only [step, pktsOf_append] at hp
+    have tf := takeHandled_fields { s with unacked := keptPart h s.unacked }
+    have ef := enableCore_fields (takeHandled { s with unacked := keptPart h s.unacked }).1 false up
+    have m1 := (fire_mono .acked re up (takeHandled { s with unacked := keptPart h s.unacked }).2
+      (enableCore (takeHandled { s with unacked := keptPart h s.unacked }).1 false up).1).1
+    simp only at tf
+    rcases List.mem_append.mp hp with hp | hp
+    · rcases List.mem_append.mp hp with hp | hp
+      · exact enableCore_pkts _ false up p hp
+      · have := fire_pkts .acked re up _ _ p hp; omega
+    · have := fire_pkts .acked re up _ _ p hp; omega
+  | resumeFailed h => simp only [step] at hp; simp at hp
+  | resetCache re up =>
+    simp only [step, pktsOf_append] at hp
+    have tf := takeHandled_fields s
+    have m1 := (fire_mono .acked re up (takeHandled s).2 (takeHandled s).1).1
+    rcases List.mem_append.mp hp with hp | hp
+    · have := fire_pkts .acked re up _ _ p hp; omega
+    · have := discAll_pkts _ re up p hp; omega
 
-theorem ackPhase_stored (s : St) (h : Nat) (re : List Nat) (up : Bool) (hen : s.enabled = true) :
-    ∀ p ∈ pktsOf (ackPhase s h re up).2,
-      p ∈ ids (ackPhase s h re up).1.unacked ∨ Out.report p .acked ∈ (ackPhase s h re up).2 := by
-  intro p hp
-  unfold ackPhase at hp ⊢
-  simp only [pktsOf_append, pktsOf_ackReports, List.append_nil] at hp
-  have h1 := fireAcked_stored re up (ackedPart h s.unacked) { s with unacked := keptPart h s.unacked } hen p hp
-  simp only [ids, List.mem_map] at h1
-  obtain ⟨e, he, hpe⟩ := h1
-  have hsplit := acked_append_kept h
-    (fireAcked re up { s with unacked := keptPart h s.unacked } (ackedPart h s.unacked)).1.unacked
-  rw [← hsplit] at he
-  rcases List.mem_append.mp he with he | he
-  · right
-    apply List.mem_append.mpr; right
-    simp only [ackReports, List.mem_map]
-    exact ⟨e, he, by rw [hpe]⟩
+/-- a stored packet whose number is covered by the pending handled count is among those
+`takeAcknowledged` removes, and not among those it leaves -/
+theorem taken_of_covered (s : St) (hk : KeysInv s) (hnd : (ids s.unacked).Nodup) {k p hf : Nat}
+    (hm : (k, p) ∈ s.unacked) (hh : s.handled = some hf) (hle : k ≤ hf) :
+    (k, p) ∈ (takeHandled s).2 ∧ p ∉ ids (takeHandled s).1.unacked := by
+  obtain ⟨a, _, hkf, _⟩ := hk
+  unfold takeHandled
+  simp only [hh]
+  rw [hkf.ackedPart_eq_filter, hkf.keptPart_eq_filter]
+  refine ⟨by simp [hm, hle], ?_⟩
+  intro hc
+  simp only [ids, List.mem_map, List.mem_filter, decide_eq_true_eq] at hc
+  obtain ⟨e, ⟨he, hlt⟩, hpe⟩ := hc
+  have he' : (e.1, p) ∈ s.unacked := by rw [← hpe]; exact he
+  have : e.1 = k := ids_nodup_unique hnd he' hm
+  omega
+
+theorem kept_or_acked (s : St) (hk : KeysInv s) (hnd : (ids s.unacked).Nodup) (h : Nat) {k p : Nat}
+    (hm : (k, p) ∈ s.unacked) :
+    (k ≤ h ∧ (k, p) ∈ ackedPart h s.unacked ∧ p ∉ ids (keptPart h s.unacked)) ∨
+    (h < k ∧ (k, p) ∈ keptPart h s.unacked) := by
+  obtain ⟨a, _, hkf, _⟩ := hk
+  rw [hkf.ackedPart_eq_filter, hkf.keptPart_eq_filter]
+  by_cases hle : k ≤ h
   · left
-    simp only [ids, List.mem_map]
-    exact ⟨e, he, hpe⟩
+    refine ⟨hle, by simp [hm, hle], ?_⟩
+    intro hc
+    simp only [ids, List.mem_map, List.mem_filter, decide_eq_true_eq] at hc
+    obtain ⟨e, ⟨he, hlt⟩, hpe⟩ := hc
+    have he' : (e.1, p) ∈ s.unacked := by rw [← hpe]; exact he
+    have : e.1 = k := ids_nodup_unique hnd he' hm
+    omega
+  · right; exact ⟨by omega, by simp [hm]; omega⟩
+
+/-- `p` is stored under a number `k ≤ h0`, and a handled count `≥ h0` is pending -/
+def Cov (s : St) (p h0 : Nat) : Prop :=
+  ∃ k hf, (k, p) ∈ s.unacked ∧ s.handled = some hf ∧ k ≤ h0 ∧ h0 ≤ hf
+
+theorem reported_of_fire {rk : Report} {re : List Nat} {up : Bool} {s : St} {l : List (Nat × Nat)} {k p : Nat}
+    (h : (k, p) ∈ l) : p ∈ reportedIds (fire rk re up s l).2 := by
+  have := fire_reports rk re up l s (k, p) h
+  simp only [reportedIds, List.mem_filterMap]
+  exact ⟨_, this, rfl⟩
+
+/-- one step keeps a covered packet off the wire, and either keeps it covered or reports it -/
+theorem step_cov (s : St) (log : List Out) (hinv : Inv s log) (op : Op) (p h0 : Nat) (hc : Cov s p h0)
+    (hop : ∀ h', op = .resumeFailed (some h') → h0 ≤ h') :
+    p ∉ pktsOf (step s op).2 ∧ (Cov (step s op).1 p h0 ∨ p ∈ reportedIds (step s op).2) := by
+  obtain ⟨k, hf, hm, hh, hk0, h0f⟩ := hc
+  have hnd : (ids s.unacked).Nodup := by
+    have := hinv.nodup; simp only [pool, List.nodup_append] at this; exact this.1
+  have hpid : p ∈ ids s.unacked := by simp only [ids, List.mem_map]; exact ⟨(k, p), hm, rfl⟩
+  have hlt : p < s.nextId := hinv.lt p (List.mem_append.mpr (Or.inl hpid))
+  have hkf : k ≤ hf := by omega
+  refine ⟨?_, ?_⟩
+  · intro hp
+    have hr := step_pkts_old s op p hp hlt
+    cases op with
+    | enabledNew re up =>
+      exact (taken_of_covered s hinv.keys hnd hm hh hkf).2 hr
+    | resumed h re up =>
+      simp only [resentOf] at hr
+      rcases kept_or_acked s hinv.keys hnd h hm with ⟨_, _, h3⟩ | ⟨_, h3⟩
+      · apply h3
+        simp only [ids, List.mem_map] at hr ⊢
+        obtain ⟨e, he, hpe⟩ := hr
+        exact ⟨e, takeHandled_left _ e he, hpe⟩
+      · have hk' := keysInv_kept s h hinv.keys
+        have hnd' : (ids (keptPart h s.unacked)).Nodup := by
+          have := (List.dropWhile_sublist (fun e : Nat × Nat => decide (e.1 ≤ h)) (l := s.unacked)).map Prod.snd
+          exact this.nodup hnd
+        exact (taken_of_covered { s with unacked := keptPart h s.unacked } hk' hnd' h3 hh hkf).2 hr
+    | _ => simp [resentOf, ids] at hr
+  · cases op with
+    | send stanza up =>
+      left
+      simp only [step]
+      refine ⟨k, hf, ?_, by rw [sendStep_handled]; exact hh, hk0, h0f⟩
+      rcases sendStep_unacked s stanza up with hu | ⟨hu, _⟩
+      · rw [hu]; exact hm
+      · rw [hu]; exact List.mem_append.mpr (Or.inl hm)
+    | ack h re up =>
+      simp only [step]
+      split
+      · rcases kept_or_acked s hinv.keys hnd h hm with ⟨_, h2, _⟩ | ⟨_, h3⟩
+        · right; exact reported_of_fire h2
+        · left
+          obtain ⟨extra, h1, _⟩ := fire_unacked .acked re up (ackedPart h s.unacked) { s with unacked := keptPart h s.unacked }
+          have m := fire_mono .acked re up (ackedPart h s.unacked) { s with unacked := keptPart h s.unacked }
+          exact ⟨k, hf, by rw [h1]; exact List.mem_append.mpr (Or.inl h3), by rw [m.2.2.2.2]; exact hh, hk0, h0f⟩
+      · left; exact ⟨k, hf, hm, hh, hk0, h0f⟩
+    | ackReq up => left; exact ⟨k, hf, hm, hh, hk0, h0f⟩
+    | recv kd => left; simp only [step]; split <;> exact ⟨k, hf, hm, hh, hk0, h0f⟩
+    | sessionClosed => left; exact ⟨k, hf, hm, hh, hk0, h0f⟩
+    | enabledNew re up =>
+      right
+      simp only [step, reportedIds_append]
+      exact List.mem_append.mpr (Or.inr (reported_of_fire (taken_of_covered s hinv.keys hnd hm hh hkf).1))
+    | resumeReq up => left; exact ⟨k, hf, hm, hh, hk0, h0f⟩
+    | resumed h re up =>
+      right
+      simp only [step, reportedIds_append]
+      rcases kept_or_acked s hinv.keys hnd h hm with ⟨_, h2, _⟩ | ⟨_, h3⟩
+      · exact List.mem_append.mpr (Or.inr (reported_of_fire h2))
+      · have hk' := keysInv_kept s h hinv.keys
+        have hnd' : (ids (keptPart h s.unacked)).Nodup := by
+          have := (List.dropWhile_sublist (fun e : Nat × Nat => decide (e.1 ≤ h)) (l := s.unacked)).map Prod.snd
+          exact this.nodup hnd
+        have := (taken_of_covered { s with unacked := keptPart h s.unacked } hk' hnd' h3 hh hkf).1
+        exact List.mem_append.mpr (Or.inl (List.mem_append.mpr (Or.inr (reported_of_fire this))))
+    | resumeFailed h' =>
+      left
+      cases h' with
+      | none => exact ⟨k, hf, hm, hh, hk0, h0f⟩
+      | some n => exact ⟨k, n, hm, rfl, hk0, hop n rfl⟩
+    | resetCache re up =>
+      right
+      simp only [step, reportedIds_append]
+      exact List.mem_append.mpr (Or.inl (reported_of_fire (taken_of_covered s hinv.keys hnd hm hh hkf).1))
+
+/-- … and so does every continuation of the history in which the server does not lower its count -/
+theorem run_cov (post : List Op) : ∀ (s : St) (log : List Out), Inv s log → ∀ (p h0 : Nat), Cov s p h0 →
+    (∀ h', Op.resumeFailed (some h') ∈ post → h0 ≤ h') → p ∉ pktsOf (run s post).2 := by
+  induction post with
+  | nil => intro s log _ p h0 _ _; simp [run]
+  | cons op post ih =>
+    intro s log hinv p h0 hc hpost
+    rw [run_cons, pktsOf_append, List.mem_append]
+    obtain ⟨h1, h2⟩ := step_cov s log hinv op p h0 hc (fun h' he => hpost h' (by rw [he]; simp))
+    rintro (h | h)
+    · exact h1 h
+    · rcases h2 with h2 | h2
+      · exact ih _ _ (hinv.step op) p h0 h2 (fun h' hm => hpost h' (by simp [hm])) h
+      · exact run_pkts_not_reported post _ _ (hinv.step op) p
+          (by rw [reportedIds_append]; exact List.mem_append.mpr (Or.inr h2)) h
 
 end Qx.C09
